@@ -2,7 +2,7 @@
 import numpy as np
 
 from rpylib.distribution.sampling import SamplingMethod
-from rpylib.grid.spatial import CTMCUniformGrid, CTMCGridGeometric
+from rpylib.grid.spatial import CTMCUniformGrid, CTMCGridGeometric, CTMCGridProbabilityStep
 from rpylib.grid.time import TimeGrid
 from rpylib.model.levymodel.levymodel import ModelType
 from rpylib.model.utils import create_exponential_of_levy_model
@@ -52,6 +52,8 @@ def build_grid(spec, model):
         return CTMCUniformGrid.create_from_fixed_nb_of_points(h=spec["h"], nb_of_points=spec["n"], dimension=1)
     if kind == "geometric":
         return CTMCGridGeometric(h=spec["h"], model=model, nb_of_points_on_each_side=spec["n"])
+    if kind == "probstep":
+        return CTMCGridProbabilityStep(h=spec["h"], model=model, minimum_probability_step=spec.get("pstep", 0.1))
     raise ValueError(kind)
 
 
